@@ -138,12 +138,38 @@ def read_atoms(ctx: Ctx, fi: FuncInfo) -> list[Atom]:
                             ctx.fold(e, fi.module, env) if e is not None else "big",
                             ctx.fold(s, fi.module, env) if s is not None else False,
                             subj, c.lineno))
+        elif norm(c.func) in ("struct.unpack", "struct.unpack_from", "unpack", "unpack_from") and c.args:
+            out += _struct_atoms(ctx, fi, c.args[0], env, c.lineno)
         elif tgt == "btclib.var_int.parse":
             out.append(Atom("VARINT", line=c.lineno))
         elif tgt == "btclib.var_bytes.parse":
             out.append(Atom("VARBYTES", line=c.lineno))
         elif nm == "parse" and isinstance(c.func, ast.Attribute) and tgt not in ("btclib.var_int.parse", "btclib.var_bytes.parse"):
             out.append(Atom("NESTED", subject=norm(c.func.value), line=c.lineno))
+    return out
+
+
+_STRUCT_INTS = {"b": (1, True), "B": (1, False), "h": (2, True), "H": (2, False), "i": (4, True), "I": (4, False), "l": (4, True), "L": (4, False),
+                 "q": (8, True), "Q": (8, False)}
+
+
+def _struct_atoms(ctx: Ctx, fi: FuncInfo, fmt_expr: ast.AST, env, line: int) -> list[Atom]:
+    """Integer atoms of a struct format string (`>4sb4sI32s33s`): width, byte order, signedness."""
+    fmt = ctx.fold(fmt_expr, fi.module, env)
+    if not isinstance(fmt, str):
+        return [Atom("INT", UNKNOWN, UNKNOWN, UNKNOWN, "struct", line)]
+    endian = "little" if fmt[:1] in "<" else "big" if fmt[:1] in ">!" else "native"
+    out = []
+    count = ""
+    for ch in fmt.lstrip("<>!=@"):
+        if ch.isdigit():
+            count += ch
+            continue
+        k = int(count) if count else 1
+        count = ""
+        if ch in _STRUCT_INTS:
+            w, sg = _STRUCT_INTS[ch]
+            out += [Atom("INT", w, endian, sg, f"struct:{ch}", line) for _ in range(k)]
     return out
 
 
